@@ -16,6 +16,7 @@ import (
 	"path"
 	"strconv"
 	"strings"
+	"sync"
 	"time"
 )
 
@@ -67,6 +68,15 @@ type FS struct {
 	// MayFail, when set, is asked before every call whether it should fail
 	// with an I/O error (fault injection).
 	MayFail func(op, name string) bool
+	// Observer, when set, sees every mutating call just before it is applied
+	// (monitors); ReadObserver sees every read of file content.
+	Observer     func(op Op)
+	ReadObserver func(name string, n int)
+	replaying    bool
+	// mu serialises the public calls (the code under test may use several
+	// goroutines); observers run with it held and use the lock-free
+	// inspection helpers (Data, Exists, Files).
+	mu sync.Mutex
 }
 
 var Cur = NewFS()
@@ -103,6 +113,8 @@ func (f *FS) Mark() {
 // next call is a write and torn >= 0, only its first torn bytes are applied.
 func (f *FS) CrashAt(k int, torn int) {
 	trace := f.Trace
+	f.replaying = true
+	defer func() { f.replaying = false }()
 	f.nodes = copyNodes(f.base)
 	f.order = append([]string(nil), f.baseO...)
 	f.Trace = nil
@@ -135,6 +147,9 @@ func (f *FS) del(name string) {
 }
 
 func (f *FS) apply(op Op) {
+	if f.Observer != nil && !f.replaying {
+		f.Observer(op)
+	}
 	f.Trace = append(f.Trace, op)
 	switch op.Kind {
 	case "mkdir":
@@ -171,6 +186,8 @@ func (f *FS) fail(op, name string) bool { return f.MayFail != nil && f.MayFail(o
 // ---- package-level API (subset of package os) ----
 
 func Stat(name string) (fs.FileInfo, error) {
+	Cur.mu.Lock()
+	defer Cur.mu.Unlock()
 	f := Cur
 	name = clean(name)
 	n, ok := f.nodes[name]
@@ -183,6 +200,12 @@ func Stat(name string) (fs.FileInfo, error) {
 func Lstat(name string) (fs.FileInfo, error) { return Stat(name) }
 
 func MkdirAll(name string, perm fs.FileMode) error {
+	Cur.mu.Lock()
+	defer Cur.mu.Unlock()
+	return mkdirAll(name, perm)
+}
+
+func mkdirAll(name string, perm fs.FileMode) error {
 	f := Cur
 	name = clean(name)
 	if f.fail("mkdir", name) {
@@ -196,7 +219,7 @@ func MkdirAll(name string, perm fs.FileMode) error {
 	}
 	// create parents first
 	if parent := path.Dir(name); parent != name {
-		if err := MkdirAll(parent, perm); err != nil {
+		if err := mkdirAll(parent, perm); err != nil {
 			return err
 		}
 	}
@@ -205,6 +228,8 @@ func MkdirAll(name string, perm fs.FileMode) error {
 }
 
 func Mkdir(name string, perm fs.FileMode) error {
+	Cur.mu.Lock()
+	defer Cur.mu.Unlock()
 	f := Cur
 	name = clean(name)
 	if _, ok := f.nodes[name]; ok {
@@ -229,6 +254,8 @@ func Create(name string) (*File, error) {
 func Open(name string) (*File, error) { return OpenFile(name, O_RDONLY, 0) }
 
 func OpenFile(name string, flag int, perm fs.FileMode) (*File, error) {
+	Cur.mu.Lock()
+	defer Cur.mu.Unlock()
 	f := Cur
 	name = clean(name)
 	if f.fail("open", name) {
@@ -265,6 +292,8 @@ func OpenFile(name string, flag int, perm fs.FileMode) (*File, error) {
 }
 
 func CreateTemp(dir, pattern string) (*File, error) {
+	Cur.mu.Lock()
+	defer Cur.mu.Unlock()
 	f := Cur
 	if dir == "" {
 		dir = "/tmp"
@@ -287,6 +316,8 @@ func CreateTemp(dir, pattern string) (*File, error) {
 }
 
 func Rename(oldpath, newpath string) error {
+	Cur.mu.Lock()
+	defer Cur.mu.Unlock()
 	f := Cur
 	oldpath, newpath = clean(oldpath), clean(newpath)
 	if f.fail("rename", oldpath) {
@@ -303,6 +334,8 @@ func Rename(oldpath, newpath string) error {
 }
 
 func Remove(name string) error {
+	Cur.mu.Lock()
+	defer Cur.mu.Unlock()
 	f := Cur
 	name = clean(name)
 	if f.fail("remove", name) {
@@ -324,6 +357,8 @@ func Remove(name string) error {
 }
 
 func RemoveAll(name string) error {
+	Cur.mu.Lock()
+	defer Cur.mu.Unlock()
 	f := Cur
 	name = clean(name)
 	var victims []string
@@ -339,6 +374,8 @@ func RemoveAll(name string) error {
 }
 
 func ReadFile(name string) ([]byte, error) {
+	Cur.mu.Lock()
+	defer Cur.mu.Unlock()
 	f := Cur
 	name = clean(name)
 	if f.fail("read", name) {
@@ -350,6 +387,9 @@ func ReadFile(name string) ([]byte, error) {
 	}
 	if n.dir {
 		return nil, perr("read", name, fs.ErrInvalid)
+	}
+	if f.ReadObserver != nil {
+		f.ReadObserver(name, len(n.data))
 	}
 	return append([]byte{}, n.data...), nil
 }
@@ -369,6 +409,8 @@ func WriteFile(name string, data []byte, perm fs.FileMode) error {
 // ReadDir lists a directory in insertion order (the real os.ReadDir sorts by
 // name; code that depends on the order is outside what this model shows).
 func ReadDir(name string) ([]fs.DirEntry, error) {
+	Cur.mu.Lock()
+	defer Cur.mu.Unlock()
 	f := Cur
 	name = clean(name)
 	d, ok := f.nodes[name]
@@ -423,6 +465,8 @@ func (f *File) Name() string { return f.name }
 func (f *File) node() *node { return f.fs.nodes[f.name] }
 
 func (f *File) Write(b []byte) (int, error) {
+	Cur.mu.Lock()
+	defer Cur.mu.Unlock()
 	if f.closed {
 		return 0, perr("write", f.name, fs.ErrClosed)
 	}
@@ -443,6 +487,8 @@ func (f *File) Write(b []byte) (int, error) {
 func (f *File) WriteString(s string) (int, error) { return f.Write([]byte(s)) }
 
 func (f *File) Read(b []byte) (int, error) {
+	Cur.mu.Lock()
+	defer Cur.mu.Unlock()
 	if f.closed {
 		return 0, perr("read", f.name, fs.ErrClosed)
 	}
@@ -461,6 +507,9 @@ func (f *File) Read(b []byte) (int, error) {
 	}
 	c := copy(b, n.data[f.off:])
 	f.off += c
+	if f.fs.ReadObserver != nil {
+		f.fs.ReadObserver(f.name, c)
+	}
 	return c, nil
 }
 
@@ -512,6 +561,8 @@ func (f *File) Close() error {
 func (f *File) Sync() error { return nil }
 
 func (f *File) Stat() (fs.FileInfo, error) {
+	Cur.mu.Lock()
+	defer Cur.mu.Unlock()
 	n := f.node()
 	if n == nil {
 		return nil, perr("stat", f.name, fs.ErrNotExist)
